@@ -368,6 +368,29 @@ def rule_falsy_option(model, rep):
         rep.undecided(R, "<instance-count>", f"only {n} guarded option stores found in using() methods, expected at least 8")
 
 
+def rule_single_exit(model, rep):
+    """using() derives the class, stores the options one after the other and finishes with cross-option validation; an early `return` skips
+    whatever follows it (the scrypt n/r/p combination check, re-clipping of the default against new limits, ...)"""
+    R = "C09.j-no-early-return"
+    n = 0
+    for un, unit in model.units.items():
+        if not un.startswith(("passlib.", "libpass.")):
+            continue
+        for q, fn in unit.functions():
+            if q.split(".")[-1] != "using" or unit.enclosing_class(fn) is None:
+                continue
+            rets = [r for r in walk_no_nested(fn) if isinstance(r, ast.Return)]
+            if not rets:
+                continue
+            n += 1
+            early = [r for r in rets if r is not fn.body[-1]]
+            rep.check(not early, R, site(un, q), "; ".join(f"line {r.lineno}: {ast.unparse(r)}" for r in early) or "single return, last statement",
+                      "using() leaves only through its final return, after every option has been stored and validated",
+                      witness="scrypt.using(block_size=1, default_rounds=8).using(default_rounds=16) is accepted although n >= 2**(16*r): the early return skipped the parameter-combination check; the derived hasher cannot hash")
+    if n < 15:
+        rep.undecided(R, "<instance-count>", f"only {n} using() methods with a return found, expected at least 15")
+
+
 def rule_gh(model, rep):
     R = "C09.g-rounds-window"
     fn = model.func(UH, "HasRounds._generate_rounds")
@@ -477,6 +500,10 @@ def run(model, rep):
     rule_gh(model, rep)
     rule_zero_max(model, rep)
     rule_falsy_option(model, rep)
+    rule_single_exit(model, rep)
+    from . import c05 as _c05
+    from .shared import Renamed as _Renamed
+    _c05.rule_a(model, _Renamed(rep, {"C05.a": "C09.k-truncate-error-honoured"}, "C09.x-"))
     rule_chain(model, rep)
     from . import shared, c04
     c04.rule_d(model, shared.Renamed(rep, {"C04.d": "C09.g-generator-inside-window"}))
